@@ -24,8 +24,8 @@ PROPS = {
             'ghost-state contracts on the constraint-handler dispatch, ensures clauses on every entry point covered'),
     'C06': ('proof', 'Quantifier-free characterisation of the exact result (ghost indices) as postcondition; word-unrolled primitives by bounded enumeration.',
             'functional ensures clauses with ghost indices (CBMC loop contracts); bounded harnesses vs. reference functions'),
-    'C07': ('model_checking', 'Bounded: every relative placement of src and dest in one arena (all offsets, dmax, slen, contents) against an interval-overlap reference; the interval macros as loop-free lemma.',
-            'bounded CBMC harness over all placements inside one arena + loop-free contract for the overlap macros'),
+    'C07': ('proof', 'Loop-free full-domain contracts for the overlap decision of the eight memory copy/move wrappers (every placement, 64-bit sizes) modulo the primitive contracts; bounded stand-ins: every relative placement of src and dest of the string family in one arena against an interval-overlap reference, the move primitives by enumeration.',
+            'function contracts on the memory wrappers (CBMC, loop-free) + bounded CBMC harness over all placements inside one arena'),
     'C09': ('model_checking', 'Bounded: the pre-scan of each of the 20 delegating entry points against a reference scanner of the directive grammar (libc formatter as assumed contract whose requires clause is "no %n directive"), all formats <= 5 characters over a 9-letter alphabet; the narrow engine with one concrete format per run incl. every %n spelling.',
             'requires-clause on the assumed libc formatter contract checked at every call site (bounded CBMC); concrete-format runs of the real engine'),
     'C10': ('model_checking', 'Bounded: 34 query functions on exact-fit operands of <= 5 elements against reference loops (answer, operands unmodified), all contents/sizes/flags.',
@@ -62,6 +62,12 @@ def main():
         if p not in PROPS:
             continue
         level, text, tech = PROPS[p]
+        # the level follows the registry: proof when the quick tier has unbounded (engine A / C) jobs
+        # for the property, model_checking when everything is a bounded stand-in (the check computes
+        # the evidence level from the obligations it actually discharged the same way)
+        unb = [j for j in registry.JOBS if p in j.props and 'quick' in j.tiers and j.engine in ('A', 'C')
+               and (j.quick_props is None or p in j.quick_props)]
+        level = 'proof' if unb else 'model_checking'
         has_thorough = any('thorough' in j.tiers for j in registry.JOBS if p in j.props)
         c = {
             'property_id': p,
